@@ -230,6 +230,40 @@ pub fn noise7(seed: u32, n: usize) -> Vec<u8> {
     (0..n).map(|_| (g.next() >> 9) as u8 & 0x7f).collect()
 }
 
+/// Input that puts the match finder exactly at its tuning thresholds: an old candidate of `long_len` bytes starting
+/// with "abcd", then the source of a shorter match ('z' + the first prev_len-1 bytes of it), then `decoys` strings
+/// that share the hashed 4-byte prefix but match no further, then 'z' + the long string. At the lazy-evaluation
+/// step the previous match has length exactly `prev_len` (against good_match / max_lazy / nice_length) and the long
+/// candidate sits `decoys` entries down the hash chain (against max_chain_length and its quarter).
+pub fn chain_threshold(prev_len: usize, long_len: usize, decoys: usize) -> Vec<u8> {
+    let mut g = Lcg(0x1234_5678 ^ (prev_len as u32) << 8 ^ decoys as u32);
+    let mut junk = |v: &mut Vec<u8>, n: usize| {
+        for _ in 0..n {
+            v.push(0x80 | (g.next() >> 9) as u8);
+        }
+    };
+    let mut long: Vec<u8> = b"abcd".to_vec();
+    for i in 0..long_len.saturating_sub(4) {
+        long.push(b'A' + (i % 58) as u8);
+    }
+    let mut v = vec![];
+    junk(&mut v, 16);
+    v.extend_from_slice(&long);
+    junk(&mut v, 16);
+    v.push(b'z');
+    v.extend_from_slice(&long[..prev_len.saturating_sub(1).min(long.len())]);
+    junk(&mut v, 16);
+    for _ in 0..decoys {
+        v.extend_from_slice(b"abcd");
+        junk(&mut v, 6);
+    }
+    junk(&mut v, 16);
+    v.push(b'z');
+    v.extend_from_slice(&long);
+    junk(&mut v, 16);
+    v
+}
+
 /// all strings over the first k symbols of `alphabet` with length <= max_len, shortest first
 pub fn tiny_strings(alphabet: &[u8], max_len: usize) -> Vec<Vec<u8>> {
     let k = alphabet.len();
